@@ -26,7 +26,8 @@ RULE = ("histories interleaving queries (to fill caches) and public mutators; af
         "object must equal the same query on an object REBUILT through the public constructors from the mutated "
         "object's current primary data (deep-copied)")
 ASSUMPTIONS = ["lanelets are not mutated behind a network's back (documented warning on the vertex setters)",
-               "in-place edits of cycle elements are not counted as changing the cycle's elements (only the setters)",
+               "a cycle's elements are changed through the cycle_elements setter or in place through the public "
+               "duration / state setters of an element",
                "tolerance 1e-9*(1+scale) for geometry; lookups compared as sets, boundary band skipped",
                "point-mass states at rest (no heading) are not generated"]
 
@@ -362,7 +363,10 @@ def s_light(tier):
     cyc = st.lists(st.tuples(st.sampled_from([c.name for c in TrafficLightState]), st.integers(1, 9)).map(list),
                    min_size=1, max_size=4)
     op = st.one_of(st.tuples(st.just("query"), st.integers(-5, 40)), st.tuples(st.just("query"), st.integers(-5, 40)),
-                   st.tuples(st.just("set-elements"), cyc), st.tuples(st.just("set-offset"), st.integers(0, 12)))
+                   st.tuples(st.just("set-elements"), cyc), st.tuples(st.just("set-offset"), st.integers(0, 12)),
+                   st.tuples(st.just("set-duration"), st.integers(0, 3), st.integers(1, 9)),
+                   st.tuples(st.just("set-state"), st.integers(0, 3), st.sampled_from([c.name for c in TrafficLightState])),
+                   st.tuples(st.just("copy"), st.sampled_from(["deepcopy", "pickle"])))
     return st.fixed_dictionaries({"cycle": cyc, "offset": st.integers(0, 6), "via": st.sampled_from(["cycle", "light"]),
                                   "ops": st.lists(op, min_size=2, max_size=8)})
 
@@ -381,6 +385,15 @@ def check_light(r, ctx):
                 mutated_after = True
             if op[0] == "set-elements":
                 cycle.cycle_elements = [TrafficLightCycleElement(TrafficLightState[c], d) for c, d in op[1]]
+            elif op[0] == "set-duration":
+                cycle.cycle_elements[op[1] % len(cycle.cycle_elements)].duration = op[2]
+            elif op[0] == "set-state":
+                cycle.cycle_elements[op[1] % len(cycle.cycle_elements)].state = TrafficLightState[op[2]]
+            elif op[0] == "copy":
+                # the history continues on a copy (which carries whatever the original had memoised)
+                light = copy.deepcopy(light) if op[1] == "deepcopy" else pickle.loads(pickle.dumps(light))
+                cycle = light.traffic_light_cycle
+                obj = cycle if r["via"] == "cycle" else light
             else:
                 cycle.time_offset = op[1]
         ctx.label("op-" + op[0])
